@@ -1557,3 +1557,6 @@ def replay(ctx, data):
     except Exception as e:
         print("model comparison not available:", e)
     return ok
+
+
+DRIVER_OPS = ["extr"]   # per-area driver executable(s) this check talks to (built before any worker is forked)
